@@ -118,8 +118,151 @@ fn writer_loop<D: arroy::Distance>(
     }
 }
 
+/// Synchronous variant (one history in three): ONE long-lived reader thread looks at the database only when the
+/// writer thread tells it to, every 1..5 commits, and the writer waits for it. Every version has the same size
+/// (one item replaced by another, same tree count), so LMDB recycles its pages with every entry at the same
+/// place; and since the reader thread never runs a build, whatever the library remembers per thread, per page
+/// or per transaction id across read transactions is stale there although it looks valid.
+/// Same event vocabulary as `run`.
+pub fn run_pingpong(seed: u64, hno: usize, n_rounds: usize) -> Vec<Value> {
+    let mut rng = StdRng::seed_from_u64(seed);
+    let p = profile("forest");
+    let metric = [Metric::Euclidean, Metric::Manhattan, Metric::Cosine, Metric::DotProduct][rng.gen_range(0..4)];
+    let dim = *[2usize, 3].iter().nth(rng.gen_range(0..2)).unwrap();
+    let idx: u16 = *[0u16, 7, 65535].iter().nth(rng.gen_range(0..3)).unwrap();
+    let dir = tempfile::tempdir_in(work_tmp()).unwrap();
+    let env = open_env(dir.path(), 256 * 1024 * 1024);
+    let db: RawDb = {
+        let mut w = env.write_txn().unwrap();
+        let db = env.create_database::<Bytes, Bytes>(&mut w, None).unwrap();
+        w.commit().unwrap();
+        db
+    };
+    let universe = 90u32;
+    let ids: Vec<u32> = (0..universe).chain([SENTINEL]).collect();
+    let fake = History {
+        indexes: vec![IndexDecl { idx, metric, dim }],
+        ops: ids.iter().map(|id| Op::Del { idx, id: *id }).collect(),
+        map_size: 0,
+        label: String::new(),
+        faults: vec![],
+        max_polls: 0,
+        sides: false,
+    };
+    let clock = AtomicI64::new(1);
+    let events: Mutex<Vec<(i64, Value)>> = Mutex::new(Vec::new());
+    let ctx = Mutex::new(Ctx::new(&fake, &[]));
+    let stamp = |clock: &AtomicI64| clock.fetch_add(1, Ordering::SeqCst);
+    let (to_reader, from_writer) = std::sync::mpsc::channel::<()>();
+    let (to_writer, from_reader) = std::sync::mpsc::channel::<()>();
+    let n_items = rng.gen_range(12..=20u32);
+    let n_trees = rng.gen_range(1..=3usize);
+    let rseed: u64 = rng.gen();
+    let lifo = rng.gen_bool(0.7);
+
+    std::thread::scope(|sc| {
+        let (clock, events, ctx, env2) = (&clock, &events, &ctx, env.clone());
+        sc.spawn(move || {
+            let mut rrng = StdRng::seed_from_u64(rseed);
+            for () in from_writer {
+                let s = stamp(clock);
+                events.lock().unwrap().push((s, json!({"ev":"R.BeginCall","h":hno as i64,"seq":s,"r":1})));
+                let rtxn = env2.read_txn().unwrap();
+                let s = stamp(clock);
+                events.lock().unwrap().push((s, json!({"ev":"R.BeginReturn","h":hno as i64,"seq":s,"r":1})));
+                let d = dump(db, &rtxn);
+                let v = sentinel_version(&d, idx, metric);
+                let st = project_all(&mut ctx.lock().unwrap(), &d, idx, metric, dim);
+                let open = with_metric!(metric, D, {
+                    let adb: arroy::Database<D> = db.remap_types();
+                    match arroy::Reader::<D>::open(&rtxn, idx, adb) {
+                        Ok(_) => "Ok".to_string(),
+                        Err(e) => crate::exec::err_class(&e)["c"].as_str().unwrap().to_string(),
+                    }
+                });
+                let q = if v != 0 { search::search_event(&mut ctx.lock().unwrap(), &rtxn, db, idx, metric, dim, rrng.gen()) } else { json!({"open":"none"}) };
+                let obs = crate::exec::observe(&mut ctx.lock().unwrap(), &rtxn, db, idx, metric, dim);
+                let s = stamp(clock);
+                events.lock().unwrap().push((s, json!({"ev":"R.Observe","h":hno as i64,"seq":s,"r":1,"v":v,"st":st,"open":open,"q":q,"obs":obs})));
+                drop(rtxn);
+                let s = stamp(clock);
+                events.lock().unwrap().push((s, json!({"ev":"R.End","h":hno as i64,"seq":s,"r":1})));
+                if to_writer.send(()).is_err() {
+                    break;
+                }
+            }
+        });
+        // ------------------------------------------------------------ the writer, on this thread
+        let pool = rayon::ThreadPoolBuilder::new().num_threads(1).build().unwrap();
+        let (env, p, rng) = (&env, &p, &mut rng);
+        pool.install(move || {
+            let mut rng = rng;
+            with_metric!(metric, D, {
+                let adb: arroy::Database<D> = db.remap_types();
+                let wr = arroy::Writer::<D>::new(adb, idx, dim);
+                let mut version = 0i64;
+                let mut present: Vec<u32> = Vec::new();
+                let mut next = 0u32;
+                let mut commit_version = |first: bool, rng: &mut StdRng, present: &mut Vec<u32>, next: &mut u32, version: &mut i64| {
+                    let mut w = env.write_txn().unwrap();
+                    if first {
+                        for _ in 0..n_items {
+                            wr.add_item(&mut w, *next, &unbits(&gen_vector(rng, dim, p, false))).unwrap();
+                            present.push(*next);
+                            *next += 1;
+                        }
+                    } else {
+                        // mostly the item added last: LMDB then keeps every other entry of the page where it was
+                        let gone = if lifo { present.pop().unwrap() } else { present.remove(rng.gen_range(0..present.len())) };
+                        wr.del_item(&mut w, gone).unwrap();
+                        wr.add_item(&mut w, *next % universe, &unbits(&gen_vector(rng, dim, p, false))).unwrap();
+                        present.push(*next % universe);
+                        *next += 1;
+                    }
+                    *version += 1;
+                    let mut sv = vec![0f32; dim];
+                    sv[0] = *version as f32;
+                    wr.add_item(&mut w, SENTINEL, &sv).unwrap();
+                    let mut brng = StdRng::seed_from_u64(rng.gen());
+                    wr.builder(&mut brng).n_trees(n_trees).build(&mut w).unwrap();
+                    let d = dump(db, &w);
+                    let st = project_all(&mut ctx.lock().unwrap(), &d, idx, metric, dim);
+                    let s = stamp(clock);
+                    events.lock().unwrap().push((s, json!({"ev":"W.CommitCall","h":hno as i64,"seq":s,"v":*version,"st":st})));
+                    w.commit().unwrap();
+                    let s = stamp(clock);
+                    events.lock().unwrap().push((s, json!({"ev":"W.CommitReturn","h":hno as i64,"seq":s,"v":*version})));
+                };
+                commit_version(true, &mut *rng, &mut present, &mut next, &mut version);
+                for round in 0..n_rounds {
+                    to_reader.send(()).unwrap();
+                    from_reader.recv().unwrap();
+                    for _ in 0..(round % 5) + 1 {
+                        if next + 1 >= universe + n_items {
+                            break;
+                        }
+                        commit_version(false, &mut *rng, &mut present, &mut next, &mut version);
+                    }
+                }
+                to_reader.send(()).unwrap();
+                from_reader.recv().unwrap();
+            });
+            drop(to_reader);
+        });
+    });
+    let mut evs = events.lock().unwrap().clone();
+    evs.sort_by_key(|e| e.0);
+    let mut out = vec![json!({"ev":"T.Reset","h":hno as i64,"readers":1,"metric":metric.short(),"dim":dim as i64,
+        "idx": idx as i64, "builder_threads": 1, "mode": "pingpong"})];
+    out.extend(evs.into_iter().map(|e| e.1));
+    out
+}
+
 /// one multi-threaded run; returns the merged, stamp-ordered events
 pub fn run(seed: u64, hno: usize, n_readers: usize, n_versions: usize, builder_threads: usize) -> Vec<Value> {
+    if seed % 3 == 0 {
+        return run_pingpong(seed, hno, n_versions * 2);
+    }
     let mut rng = StdRng::seed_from_u64(seed);
     let p = profile("forest");
     // f32 metrics only: the sentinel's first component carries the version number
@@ -223,8 +366,10 @@ pub fn run(seed: u64, hno: usize, n_readers: usize, n_versions: usize, builder_t
                                 Err(e) => crate::exec::err_class(&e)["c"].as_str().unwrap().to_string(),
                             }
                         });
+                        // the API-level bundle (writer and reader calls on THIS thread's read transaction)
+                        let obs = crate::exec::observe(&mut ctx.lock().unwrap(), &rtxn, db, idx, metric, dim);
                         let s = stamp(&clock);
-                        events.lock().unwrap().push((s, json!({"ev":"R.Observe","h":hno as i64,"seq":s,"r":r as i64 + 1,"v":v,"st":st,"open":open,"q":q})));
+                        events.lock().unwrap().push((s, json!({"ev":"R.Observe","h":hno as i64,"seq":s,"r":r as i64 + 1,"v":v,"st":st,"open":open,"q":q,"obs":obs})));
                     }
                     drop(rtxn);
                     let s = stamp(&clock);
